@@ -2,6 +2,7 @@
 from contracts import formulas as F
 
 from contracts import formulas as FO
+from contracts import core as K
 ID = "C19"
 LEVEL = "other"
 TRUSTED = ["A3 sorted() is a stable permutation ordered by key"]
@@ -9,12 +10,13 @@ EXPLANATION = "see DESIGN.md C19"
 
 
 def units(tier):
-    return ([F.U_HILL, F.U_HILL_NOTATION, F.L_DEN_PERMUTATION, F.U_COUNT_ATOMS, F.U_ATOMS] + F.U_FORMULA_KINDS) + [FO.U_HILL_KEY]
+    return (([F.U_HILL, F.U_HILL_NOTATION, F.L_DEN_PERMUTATION, F.U_COUNT_ATOMS, F.U_ATOMS] + F.U_FORMULA_KINDS) + [FO.U_HILL_KEY]) + [K.L_ATOM_IDENTITY]
 
 
 def runner_tasks(tier):
     return [{"module": "c19", "task": "order_total", "kind": "eval", "clause": "sort key vs Hill order, key injectivity; all symbol/isotope/charge classes"},
-            {"module": "c19", "task": "hill", "kind": "bounded", "clause": "composition, order, canonicity, idempotence, parsed == hill"}]
+            {"module": "c19", "task": "hill", "kind": "bounded", "clause": "composition, order, canonicity, idempotence, parsed == hill"},
+            {"module": "stateful", "task": "C19", "name": "stateful C19", "kind": "bounded", "clause": "Hill form of mixed-table formulas and of isotope ions in one charge state"}]
 
 
 REPLAY = {"module": "c19", "task": "replay"}
